@@ -55,6 +55,10 @@ func runC05(c *Ctx) error {
 	if err := c05DebChangelogSite(c, tree); err != nil {
 		return err
 	}
+	if err := c05TreeOfCwd(c); err != nil {
+		return err
+	}
+	c05SameBaseNames(c, tree)
 	return c05Random(c, tree)
 }
 
@@ -147,6 +151,64 @@ func c05DebChangelogSite(c *Ctx, t *SrcTree) error {
 		}
 	}
 	return nil
+}
+
+// c05TreeOfCwd: a tree (and a glob) whose source is the working directory itself, spelled ".", "./", "./." – with
+// entries whose names begin with a dot, or with two dots, at its top level: the tree is replicated name for name.
+func c05TreeOfCwd(c *Ctx) error {
+	fam := c.Rep.Family("tree-of-working-directory", "exhaustive: the working directory set to a directory holding .env, ..data, .config/settings.ini, plain.txt, sub/.keep; content {type tree | glob '*' | glob '.*'} with source {., ./, ./., sub/..} and destination /opt/app x 5 packagers: files.PrepareForPackager vs the model of planning (every entry replicated under its own name, leading dots included) and the planning spec; non-trivial = always")
+	fam.Exhaustive = true
+	dir := filepath.Join(c.Tmp, "cwd-tree")
+	for _, f := range []string{".env", "..data", ".config/settings.ini", "plain.txt", "sub/.keep"} {
+		p := filepath.Join(dir, f)
+		if err := os.MkdirAll(filepath.Dir(p), 0o755); err != nil {
+			return err
+		}
+		if err := os.WriteFile(p, []byte(f), 0o644); err != nil {
+			return err
+		}
+	}
+	wd, err := os.Getwd()
+	if err != nil {
+		return err
+	}
+	if err := os.Chdir(dir); err != nil {
+		return err
+	}
+	defer os.Chdir(wd) // nolint: errcheck
+	for _, pk := range Formats {
+		for _, src := range []string{".", "./", "./.", "sub/.."} {
+			planCase(c, fam, "tree-of-working-directory", wire.PlanCfg{Packager: pk, Umask: 0o022, MTime: 1700000000},
+				[]wire.Content{{Src: src, Dst: "/opt/app", Type: "tree"}}, false)
+		}
+		for _, src := range []string{"*", ".*", "./.*", "./*"} {
+			planCase(c, fam, "tree-of-working-directory", wire.PlanCfg{Packager: pk, Umask: 0o022, MTime: 1700000000},
+				[]wire.Content{{Src: src, Dst: "/opt/app/"}}, false)
+		}
+	}
+	return nil
+}
+
+// c05SameBaseNames: one glob whose matches have the same base name in different directories, sent into a directory
+// destination: both would occupy <dst>/<base name> – a collision, never a silent replacement.
+func c05SameBaseNames(c *Ctx, t *SrcTree) {
+	fam := c.Rep.Family("same-base-name-matches", "exhaustive: globs over the source tree whose matches share a base name in different directories (dup/site-a/app.conf, dup/site-b/app.conf, dup/site-b/other.conf) with a destination that ends in '/' (every match lands at <dst>/<base name>) and one that does not (structure kept) x 5 packagers x {file, config}: files.PrepareForPackager vs the model of planning and the planning spec; non-trivial = always")
+	fam.Exhaustive = true
+	for _, f := range []string{"dup/site-a/app.conf", "dup/site-b/app.conf", "dup/site-b/other.conf"} {
+		p := filepath.Join(t.Root, f)
+		_ = os.MkdirAll(filepath.Dir(p), 0o755)
+		_ = os.WriteFile(p, []byte(f), 0o644)
+	}
+	for _, pk := range Formats {
+		for _, typ := range []string{"", "config"} {
+			for _, src := range []string{"dup/*/app.conf", "dup/**/*.conf", "dup/site-?/app.conf"} {
+				for _, dst := range []string{"/etc/app/", "/etc/app"} {
+					planCase(c, fam, "same-base-name-matches", wire.PlanCfg{Packager: pk, Umask: 0o022, MTime: 1700000000},
+						[]wire.Content{{Src: filepath.Join(t.Root, src), Dst: dst, Type: typ}}, false)
+				}
+			}
+		}
+	}
 }
 
 func c05Path(c *Ctx) error {
